@@ -114,6 +114,19 @@ func (s *clientSocketStore) set(socket *clientSocket) {
 	s.sockets[socket.namespace] = socket
 }
 
+// Stores the socket unless its namespace already has one, and returns the socket of the namespace:
+// the look-up and the insertion are one critical section.
+func (s *clientSocketStore) setIfAbsent(socket *clientSocket) *clientSocket {
+	s.mu.Lock()
+	defer s.mu.Unlock()
+	existing, ok := s.sockets[socket.namespace]
+	if ok {
+		return existing
+	}
+	s.sockets[socket.namespace] = socket
+	return socket
+}
+
 func (s *clientSocketStore) remove(namespace string) {
 	s.mu.Lock()
 	defer s.mu.Unlock()
